@@ -252,6 +252,13 @@ def queries(tier):
         q("ref.%s" % tn, "ref", tn, entry_path=ENTRY_PATHS[tn], timeout=400)
     for lt in ("str", "bool", "float", "list", "tuple", "dict", "path"):
         q("ref.T1.%s" % lt, "ref", "T1", entry_path="/t1/f", leaf_type={"G": lt})
+    if tier == "thorough":
+        for lt in ("bool", "float", "tuple", "dict", "none", "str3", "ustr"):
+            q("env.T1.%s" % lt, "env", "T1", leaf_type={"G": lt}, other_first=True, other_variants={"tq.m1": "b"}, timeout=900)
+        for tn, var in (("T5", "K2"), ("T6", "G2"), ("T7", "G"), ("T8", "RATE")):
+            for lt in ("str", "list", "path"):
+                q("env.%s.%s" % (tn, lt), "env", tn, leaf_type={var: lt}, other_first=True, timeout=1200)
+                q("ref.%s.%s" % (tn, lt), "ref", tn, entry_path=ENTRY_PATHS[tn], leaf_type={var: lt}, timeout=900)
     qs.append({"id": "pinned", "fn": "pinned_query", "kind": "z3", "sel": {}, "timeout": 120, "no_twin": True})
     return qs
 
